@@ -9,7 +9,7 @@ for d in seeded/*/; do
   PAIRS="$PAIRS$n $p\n"
 done
 # seeds that manifest through another property's machinery as well
-PAIRS="${PAIRS}C01-2 C09\nC04-2 C09\nC04-2 C10\nC10-2 C09\nC12-1 C10\nC09-4 C11\nC12-4 C11\nC12-3 C17\nC10-5 C09\nC10-6 C09\nC12-5 C13\nC12-6 C09\nC12-6 C10\nC08-4 C13\n"
+PAIRS="${PAIRS}C01-2 C09\nC04-2 C09\nC04-2 C10\nC10-2 C09\nC12-1 C10\nC09-4 C11\nC12-4 C11\nC12-3 C17\nC10-5 C09\nC10-6 C09\nC12-5 C13\nC12-6 C09\nC12-6 C10\nC08-4 C13\nC01-6 C08\n"
 # SEED_FILTER (regex on "seed check" lines) re-runs only part of the matrix; the other rows are kept
 # from build/seed_matrix_rows.log (one line per pair, replaced when the pair is run again)
 FILTER=${SEED_FILTER:-.}
